@@ -17,7 +17,7 @@ from dippy.cli import get_handler, get_description, HandlerContext
 from dippy.vendor.parable import parse, ParseError
 
 # Redirect targets that are always safe (no file write)
-SAFE_REDIRECT_TARGETS = frozenset({"/dev/null", "-", "/dev/stdout", "/dev/stdin"})
+SAFE_REDIRECT_TARGETS = frozenset({"/dev/null", "/dev/stdout", "/dev/stdin"})
 
 
 @dataclass
@@ -363,15 +363,20 @@ def _analyze_redirects(
         # Strip fd prefix (N> or {var}>) to get the bare operator
         bare_op = _strip_fd_prefix(op)
 
-        # fd duplication/closing: >&N, >&-, N>&M- (unquoted & right after the operator)
-        if getattr(r.target, "value", "").startswith("&"):
-            continue
+        # N>&word is reported as operator "N>" with target "&word": a duplication,
+        # closing or move when word is a number, "-" or "N-" - otherwise a file
+        raw_target = getattr(r.target, "value", "")
+        if raw_target.startswith("&"):
+            fd_word = raw_target[1:]
+            fd_digits = fd_word[:-1] if fd_word.endswith("-") else fd_word
+            if fd_word == "-" or (fd_digits.isascii() and fd_digits.isdigit()):
+                continue
+            target = _strip_quotes(fd_word)
         if bare_op in (">&", "<&") and (
             (target.isascii() and target.isdigit()) or target == "-"
         ):
             continue
-        # "-" only means stdin/stdout to tools; bash opens a file named "-"
-        if target in SAFE_REDIRECT_TARGETS and target != "-":
+        if target in SAFE_REDIRECT_TARGETS:
             continue
 
         # Check output redirects against config
